@@ -233,11 +233,29 @@ def atom_c19(rng):
     return "[%s]" % rng.choice(G.RC_POOL + G.HINT_POOL + G.FC_POOL + G.RC_EDGE + G.FC_EDGE)
 
 
+def define_foreign_schemas():
+    """the application has marshmallow schemas of its own whose class names coincide with ahbicht's (an OAuth TokenSchema, a TreeSchema for
+    a category tree, ...): marshmallow keeps ONE process-wide registry of schema classes by name"""
+    from marshmallow import Schema, fields
+
+    made = []
+    for name in ("TokenSchema", "TreeSchema", "_TokenOrTreeSchema", "ConciseTreeSchema", "EvaluatedFormatConstraintSchema", "ContentEvaluationResultSchema", "CategorizedKeyExtractSchema", "RequirementConstraintEvaluationResultSchema", "FormatConstraintEvaluationResultSchema", "AhbExpressionEvaluationResultSchema"):
+        made.append(type(name, (Schema,), {"access_token": fields.String(), "expires_in": fields.Integer()}))
+    return made
+
+
+_FOREIGN = []
+
+
 async def run(ctx):
     rng = ctx.rng
     E.install()
     pools = G.Pools(rc=["1", "2", "3", "4"], hint=["501", "502"], fc=["901", "902", "903"])
+    ctx.note("foreign_schemas", "after the first 50 cases the process defines marshmallow schema classes of its own with the same class names as ahbicht's")
     for i in range(ctx.budget(1200, 60_000)):
+        if i == 50 and not _FOREIGN:
+            _FOREIGN.extend(define_foreign_schemas())
+            ctx.count("foreign_schema_classes_defined", len(_FOREIGN))
         asg = {k: rng.choice("FUK") for k in E.RC_KEYS}
         r = rng.random()
         if r < 0.3:
@@ -275,6 +293,8 @@ async def run(ctx):
 
 async def replay(ctx, phase, case):
     E.install()
+    if not _FOREIGN:
+        _FOREIGN.extend(define_foreign_schemas())  # the state the workload is in for all but its first 50 cases
     if phase == "tree":
         await check_tree(ctx, case)
     elif phase == "extract":
